@@ -290,7 +290,7 @@ func (s *Session) builtin(st *State, b *ssa.Builtin, c *ssa.CallCommon, args []V
 			s.D.Fun(name, []Sort{elemSortOf(ds)}, SInt)
 			r := mk(SInt, name, Select(s.H(st, dk, ds), a))
 			st.assume(Le(TZero, r))
-			st.assume(Le(r, BigLit("4611686018427387904")))
+			st.assume(Le(r, BigLit("1152921504606846976")))
 			return r
 		case *types.Chan:
 			return s.freshTyped(st, "chanlen", types.Typ[types.Int])
@@ -384,18 +384,21 @@ func (s *Session) appendOp(st *State, c *ssa.CallCommon, args []Value) Value {
 	newLen := Add(oldLen, addLen)
 	i := Term{"i!q", SInt}
 	// old elements preserved
-	st.assume(Term{fmt.Sprintf("(forall ((i!q Int)) (! (=> (and (<= 0 i!q) (< i!q %s)) (= (select %s i!q) (select (select %s %s) (sidx %s i!q)))) :pattern ((select %s i!q))))",
-		oldLen.S, newArr.S, E.S, SArr(sl).S, sl.S, newArr.S), SBool})
+	st.assume(Term{fmt.Sprintf("(forall ((i!q Int)) (! (=> (and (<= 0 i!q) (< i!q %s)) (= (select %s i!q) (select (select %s %s) %s))) :pattern ((select %s i!q)) :pattern ((select (select %s %s) %s))))",
+		oldLen.S, newArr.S, E.S, SArr(sl).S, SIdx(sl, Term{"i!q", SInt}).S, newArr.S, E.S, SArr(sl).S, SIdx(sl, Term{"i!q", SInt}).S), SBool})
 	if !isStr {
 		st.assume(Term{fmt.Sprintf("(forall ((i!q Int)) (! (=> (and (<= 0 i!q) (< i!q %s)) (= (select %s (+ %s i!q)) (select (select %s %s) %s))) :pattern ((select (select %s %s) %s))))",
 			addLen.S, newArr.S, oldLen.S, E.S, SArr(extra).S, SIdx(extra, Term{"i!q", SInt}).S, E.S, SArr(extra).S, SIdx(extra, Term{"i!q", SInt}).S), SBool})
+		// the same fact, triggered by reads of the result
+		st.assume(Term{fmt.Sprintf("(forall ((p!q Int)) (! (=> (and (<= %s p!q) (< p!q (+ %s %s))) (= (select %s p!q) (select (select %s %s) %s))) :pattern ((select %s p!q))))",
+			oldLen.S, oldLen.S, addLen.S, newArr.S, E.S, SArr(extra).S, SIdx(extra, Term{"(- p!q " + oldLen.S + ")", SInt}).S, newArr.S), SBool})
 		// the common single-element case, without a quantifier instance
 		st.assume(Implies(Eq(addLen, IntLit(1)), Eq(Select(newArr, oldLen), Select(Select(E, SArr(extra)), SIdx(extra, TZero)))))
 	}
 	_ = i
 	s.setH(st, k, so, Store(E, na, newArr))
 	cp := s.fresh("cap", SInt)
-	st.assume(And(Le(newLen, cp), Le(cp, BigLit("4611686018427387904"))))
+	st.assume(And(Le(newLen, cp), Le(cp, BigLit("1152921504606846976"))))
 	res := MkSlice(na, TZero, newLen, cp)
 	// append(nil, <empty>...) is nil
 	return Ite(And(Eq(SArr(sl), TZero), Eq(addLen, TZero)), NilSlice, res)
